@@ -193,13 +193,16 @@ WaitTimeout ==
     /\ UNCHANGED <<att, included, confirmed, perAttempt, result>>
 
 (* the loop's context is cancelled (signing executor's loop timeout) *)
-Stop ==
-    /\ stage = "next" /\ att = MaxAttempts
+StopBody ==
+    /\ stage = "next"
     /\ stage' = "stopped"
     /\ receivers' = {}
     /\ result' = [NoResult EXCEPT !.o = "cancelled"]
     /\ lastAct' = Act("Stop", {}, NoMsg)
     /\ UNCHANGED <<att, included, confirmed, perAttempt>>
+
+(* in the bounded configurations the loop is stopped after the last attempt *)
+Stop == att = MaxAttempts /\ StopBody
 
 DoSelect  == \E I \in Subsets(Seats, Threshold) : Select(I)
 DoDeliver == \E m \in Msgs : Deliver(m)
